@@ -6,6 +6,7 @@
   seeded.py detect <dir> [--tier quick|thorough] [--check Cxx]
                             apply the patch to /repo, run the property's check, undo the patch; records the outcome
                             in <dir>/meta.json under "detection"
+  seeded.py import <src dir> <Cxx-mutN>   copy a sub-agent's deliverable into seeded/ and verify it
   seeded.py all [--tier ..] detect every seeded change and print a table
 Nothing here is part of a registered check; /repo is always restored with `git checkout -- .`.
 """
@@ -83,6 +84,21 @@ def detect(d, tier='quick', check=None):
     return outcome
 
 
+def import_(src, name):
+    """copy <src>/{patch.diff,demo.py,meta.json} (written by a blind sub-agent in its scratch worktree) to seeded/<name>/"""
+    import shutil
+
+    dst = os.path.join(VERIF, 'seeded', name)
+    os.makedirs(dst, exist_ok=True)
+    for f in ('patch.diff', 'demo.py', 'meta.json'):
+        shutil.copy(os.path.join(src, f), os.path.join(dst, f))
+    meta = json.load(open(os.path.join(dst, 'meta.json')))
+    meta['property'] = name.split('-')[0]
+    meta['round'] = 2
+    json.dump(meta, open(os.path.join(dst, 'meta.json'), 'w'), indent=1)
+    return dst
+
+
 if __name__ == '__main__':
     cmd = sys.argv[1]
     args = sys.argv[2:]
@@ -97,6 +113,9 @@ if __name__ == '__main__':
         sys.exit(0 if verify(pos[0]) else 1)
     elif cmd == 'detect':
         detect(pos[0], tier, check)
+    elif cmd == 'import':
+        d = import_(pos[0], pos[1])
+        sys.exit(0 if verify(d) else 1)
     elif cmd == 'all':
         base = os.path.join(VERIF, 'seeded')
         for name in sorted(os.listdir(base)):
